@@ -298,25 +298,25 @@ theorem psd_preserved (J C : Mat 6 6 ℝ) (h : IsPSD (Matrix.of C)) : IsPSD (Mat
 /-- the 3×3 identity as a model matrix -/
 def id3 : Mat 3 3 ℝ := fun i j => if i = j then 1 else 0
 
-/-- **Witness (position block).** With `R = 1` and the pose attitude `yaw = π`, the as-written Jacobian has
-    `∂x'/∂x = (R·R(pose))₀₀ = -1`, while `x' = x` (the true Jacobian has `R₀₀ = 1`). -/
-theorem jacobian_position_block_wrong :
+/-- **Witness (position block) for the Jacobian before /repo 67bbb47.** With `R = 1` and the pose attitude
+    `yaw = π`, it had `∂x'/∂x = (R·R(pose))₀₀ = -1`, while `x' = x`; the repaired Jacobian has `R₀₀ = 1`. -/
+theorem jacobian_before_fix_position_block_wrong :
     let o : Vec 3 ℝ := fun i => if i = 2 then Real.pi else 0
     let s := smartInit o
-    (jacobianCode id3 (mul3 id3 s.R.get) s.dRdX.get s.dRdY.get s.dRdZ.get).get 0 0 = -1 ∧
-    (jacobianTrue id3 (mul3 id3 s.R.get) (fun _ => id3)).get 0 0 = 1 := by
-  simp [jacobianCode, jacobianTrue, smartInit, id3, mul3, rotZ, rotY, rotX]
+    (jacobianBeforeFix id3 (mul3 id3 s.R.get) s.dRdX.get s.dRdY.get s.dRdZ.get).get 0 0 = -1 ∧
+    (jacobian id3 (mul3 id3 s.R.get) (fun _ => id3)).get 0 0 = 1 := by
+  simp [jacobianBeforeFix, jacobian, smartInit, id3, mul3, rotZ, rotY, rotX]
 
-/-- **Witness (pitch row).** With `R = 1` and the pose attitude (0,0,0) the transformed pitch equals the pitch,
-    so `∂pitch'/∂pitch = 1`; the as-written Jacobian has `-1` there (wrong sign), the true one `1`. -/
-theorem jacobian_pitch_row_wrong :
+/-- **Witness (pitch row) for the Jacobian before /repo 67bbb47.** With `R = 1` and the pose attitude (0,0,0) the
+    transformed pitch equals the pitch, so `∂pitch'/∂pitch = 1`; it had `-1` there (wrong sign), the repaired one `1`. -/
+theorem jacobian_before_fix_pitch_row_wrong :
     let o : Vec 3 ℝ := fun _ => 0
     let s := smartInit o
-    let d := trueDerivs o
-    (jacobianCode id3 (mul3 id3 s.R.get) s.dRdX.get s.dRdY.get s.dRdZ.get).get 4 4 = -1 ∧
-    (jacobianTrue id3 (mul3 id3 s.R.get)
-      (fun k => match k with | 0 => mul3 id3 d.1.get | 1 => mul3 id3 d.2.1.get | 2 => mul3 id3 d.2.2.get)).get 4 4 = 1 := by
-  simp [jacobianCode, jacobianTrue, smartInit, trueDerivs, id3, mul3, dot3, rotZ, rotY, rotX, dRotYCode, dRotYTrue]
+    let d := dRotation id3 o
+    (jacobianBeforeFix id3 (mul3 id3 s.R.get) s.dRdX.get s.dRdY.get s.dRdZ.get).get 4 4 = -1 ∧
+    (jacobian id3 (mul3 id3 s.R.get)
+      (fun k => match k with | 0 => d.1.get | 1 => d.2.1.get | 2 => d.2.2.get)).get 4 4 = 1 := by
+  simp [jacobianBeforeFix, jacobian, dRotation, smartInit, trueDerivs, id3, mul3, dot3, rotZ, rotY, rotX, dRotYCode, dRotYTrue]
 
 /- Full statement not proved here (S in DESIGN.md):
    `jacobian_correct`: for a rotation `R`, a pose attitude `o` and `M = R · Rz Ry Rx` with `|M₂₀| < 1`, and away from
